@@ -1,6 +1,8 @@
 ENGINES = [
     {"name": "irgraph", "path": "specs/ir/IRGraph.tla", "serves_properties": ["C01", "C06"],
      "kind_free_text": "TLA+ state machine of Value/Node/Graph and the tracked containers; TLC exhaustive per focus cfg (IRGraphMC_*.cfg) + IRGraphTrace.tla trace validation; harness/vfh/irdrive.py, irreplay.py, irtrace.py, ircheck.py"},
+    {"name": "irclone", "path": "specs/ir/IRClone.tla", "serves_properties": ["C13"],
+     "kind_free_text": "IRGraph extended with nesting, attribute-level state and the cloner (CloneGraph transcribes _cloner.py); IRCloneMC.tla; harness/vfh/irclone.py"},
 ]
 
 CHECKS = {
@@ -18,5 +20,12 @@ CHECKS = {
     ),
 }
 
+CHECKS["C13"] = dict(
+    engine="irclone", design_ref="DESIGN.md §4 C13",
+    technique="TLC model checking of IRClone.tla (clone at any state, then edits on either copy) + replay of every (state, call) into onnx_ir with cell-level independence comparison",
+    text="the specification allocates fresh objects for everything a cloned graph defines and makes every edit touch exactly one object; TLC checks closedness/freshness of clones on the design and enumerates clone points followed by edits of structure, names, types, shapes, constants, metadata and attributes on either copy; each (state, call) is executed on real objects through Graph/GraphView/Model/Function.clone and any observable cell that changes although the model leaves it untouched is shared state between the copies; object identity of containers, closedness and serialization equality are checked at the clone step.",
+    note="small scope (nesting <=2, <=4 graphs, <=2-3 calls after seed); object identity of metadata containers inspected through private attributes only to compare identity",
+)
+
 _PENDING = "check not built yet in this round (specification planned in DESIGN.md §4); not claimed until its TLA+ model and binding exist"
-NOT_APPLICABLE = {p: _PENDING for p in ["C02", "C03", "C04", "C05", "C07", "C08", "C09", "C10", "C11", "C12", "C13", "C14", "C15", "C16", "C17", "C18", "C19", "C20"]}
+NOT_APPLICABLE = {p: _PENDING for p in ["C02", "C03", "C04", "C05", "C07", "C08", "C09", "C10", "C11", "C12", "C14", "C15", "C16", "C17", "C18", "C19", "C20"]}
